@@ -48,3 +48,22 @@ Proof.
   split; [apply nodup_dec; vm_compute; reflexivity|].
   split; [apply parents_first_dec; vm_compute; reflexivity | vm_compute; reflexivity].
 Qed.
+
+(* ---------- the same DAG with the validators listed in a non-canonical order (the list of
+   proofs/BftProps.v): inside the side conditions of link_full_raw ---------- *)
+From LV Require Import proofs.LinkPerm proofs.LinkRaw.
+Definition ex3_D : list fev :=
+  map (fun e => mkev (eid (fe e) + 1000) (ecr (fe e)) (eseq (fe e)) (ffr e) (map (N.add 1000) (epar (fe e)))) ex_D.
+Example ex3_not_canonical : mk_vals ex_vals <> ex_vals.
+Proof. vm_compute. discriminate. Qed.
+Example ex3_side : link_side_raw ex_vals ex3_D.
+Proof.
+  split; [split; [repeat constructor; cbn; intuition discriminate | intros p Hp; cbn in Hp; intuition (subst; discriminate)]|].
+  split; [vm_compute; reflexivity|]. split; [apply ids_fresh_b; vm_compute; reflexivity | vm_compute; reflexivity].
+Qed.
+Example ex3_valid : valid_run ex_vals ex3_D.
+Proof. split; [apply codes_ok_dec; vm_compute; reflexivity | unfold few_forkers; vm_compute; reflexivity]. Qed.
+Example ex3_blocks : snd (reference ex_vals ex3_D) = [(1, 1000, []); (2, 1015, [37094])].
+Proof. vm_compute. reflexivity. Qed.
+Example ex3_refines_by_evaluation : abft_run 200 (fun _ => 0) ex_vals ex3_D = reference ex_vals ex3_D.
+Proof. vm_compute. reflexivity. Qed.
